@@ -3,6 +3,7 @@ package gen
 import (
 	"bytes"
 	"fmt"
+	"gitlab.com/gomidi/midi/v2/zverif/noise"
 	"io"
 
 	"gitlab.com/gomidi/midi/v2"
@@ -186,6 +187,7 @@ func BuildLib(c APICase) *smf.SMF {
 		} else {
 			s.Add(tr)
 		}
+		noise.Between() // other values are created and filled while this one is being built
 	}
 	if c.FailFirstAt > 0 {
 		s.WriteTo(&failAfter{budget: c.FailFirstAt - 1})
